@@ -20,6 +20,10 @@ def ustr(v):
     """
     if isinstance(v, (str, bytes)):
         return v
+    elif isinstance(v, type):
+        # the __str__ found on a class is the unbound method of its
+        # instances
+        return str(v)
     else:
         fn = getattr(v, '__str__', None)
         if fn is not None:
